@@ -4,5 +4,6 @@ CONSTANTS
   Fixed = TRUE
   AllowForeignClose = FALSE
   AllowCancel = FALSE
+  AllowStall = FALSE
 INVARIANT EmitHist
 CHECK_DEADLOCK FALSE
